@@ -19,6 +19,7 @@ def run(ctx):
         "symbolic cryptography: SHA-256 is collision free, ed25519 is unforgeable; real keys derived from fixed seeds",
         "a garbage hash is realised as another well-formed hash, an empty string, a non-base64 string or a `hashes` "
         "object without sha256 (all well-typed JSON: malformed `hashes` values that make the parser fail are not generated)",
+        "every record parses the tampered event, then the untampered one, the tampered one again and the untampered one again in one process: the results must not depend on what was parsed before",
         "no top-level key differing from a protected key only in case (open C05 finding); no keys starting with `_`",
         "VerifyEventSignatures of the parsed event is compared with the untampered event's verdict also where that one "
         "does not verify (invite / restricted join signed by the sender's server only; pseudo-ID member events without "
